@@ -366,7 +366,99 @@ func cmdCrashSimple(fs *flag.FlagSet, args []string) {
 			return d, ok
 		})
 		emit("crashsum workload=%d events=%d crashpoints=%d checked=%d distinct-recovered-states=%d", w, len(events), total, checked, distinct)
+		observedCrash(w, *seed, disksz, fhOf)
 	}
+}
+
+// observedCrash: what a reply REVEALED must survive a crash too.  One client grows a file step by
+// step (SETATTR size 1, 2, 3, ...) while another asks for its attributes all the time; the disk is
+// slow on the log header, so a transaction stays "appended but not on disk" for a while.  Every
+// GETATTR reply is stamped with the disk trace position at which it was received; the server
+// crashes right there with nothing of the un-barriered writes on disk, recovers, and must not
+// serve a size smaller than the one it had already reported.
+func observedCrash(w int, seed uint64, disksz uint64, fhOf func(uint64) nfstypes.Nfs_fh3) {
+	rec := NewRecDisk(disksz)
+	rec.slow = func(a uint64) {
+		if a == 0 {
+			time.Sleep(300 * time.Microsecond)
+		}
+	}
+	srv := simple.MakeNfs(rec)
+	const f = 5
+	const steps = 40
+	type obs struct {
+		pos  int
+		size uint64
+	}
+	var obsMu sync.Mutex
+	first := map[uint64]int{} // size -> earliest position at which a reply reported it
+	var stop int32
+	var wg sync.WaitGroup
+	nobs := 0
+	for g := 0; g < 2; g++ {
+		wg.Add(1)
+		go func() {
+			defer wg.Done()
+			defer func() { recover() }()
+			for atomic.LoadInt32(&stop) == 0 {
+				ga := srv.NFSPROC3_GETATTR(nfstypes.GETATTR3args{Object: fhOf(f)})
+				p := rec.pos()
+				if ga.Status != nfstypes.NFS3_OK {
+					continue
+				}
+				sz := uint64(ga.Resok.Obj_attributes.Size)
+				obsMu.Lock()
+				nobs++
+				if q, ok := first[sz]; !ok || p < q {
+					first[sz] = p
+				}
+				obsMu.Unlock()
+			}
+		}()
+	}
+	okRun := guardedCall(func() {
+		for i := 1; i <= steps; i++ {
+			var a nfstypes.SETATTR3args
+			a.Object = fhOf(f)
+			a.New_attributes.Size = nfstypes.Set_size3{Set_it: true, Size: nfstypes.Size3(i)}
+			srv.NFSPROC3_SETATTR(a)
+			time.Sleep(200 * time.Microsecond) // lets the readers have the file's lock between two steps
+		}
+	})
+	atomic.StoreInt32(&stop, 1)
+	wg.Wait()
+	if !okRun {
+		emit("# ORACLE C17 request-did-not-return simple observed workload %d (seed %d): SETATTR with a concurrent GETATTR panicked or hung", w, seed)
+		return
+	}
+	rec.mu.Lock()
+	events := rec.events
+	rec.mu.Unlock()
+	checked := 0
+	var sizes []uint64
+	for sz := range first {
+		sizes = append(sizes, sz)
+	}
+	sort.Slice(sizes, func(i, j int) bool { return sizes[i] < sizes[j] })
+	for _, sz := range sizes {
+		p := first[sz]
+		img := buildImage(events, p, nil, true)
+		var rs *simple.Nfs
+		var ga nfstypes.GETATTR3res
+		if !guardedCall(func() {
+			rs = simple.Recover(NewOverlay(disksz, img))
+			ga = rs.NFSPROC3_GETATTR(nfstypes.GETATTR3args{Object: fhOf(f)})
+		}) {
+			emit("# ORACLE C17 recovery-crashed simple observed workload %d (seed %d): recovery from the image at crash point %d panicked or hung", w, seed, p)
+			continue
+		}
+		checked++
+		if got := uint64(ga.Resok.Obj_attributes.Size); ga.Status != nfstypes.NFS3_OK || got < sz {
+			emit("# ORACLE C17 reported-state-lost simple observed workload %d (seed %d): a GETATTR reply received after %d of %d disk events reported size %d for file %d (sizes only grow: SETATTR 1, 2, 3, ...); the server crashed right then (un-barriered writes lost), recovered, and serves size %d (status %d): a reply revealed a change that was not durable", w, seed, p, len(events), sz, f, got, ga.Status)
+			break
+		}
+	}
+	emit("crashobs workload=%d events=%d getattr-replies=%d distinct-sizes-reported=%d checked=%d", w, len(events), nobs, len(sizes), checked)
 }
 
 func afterSeconds(n int) <-chan time.Time { return time.After(time.Duration(n) * time.Second) }
